@@ -45,7 +45,9 @@ Den ==
     [] E.ev = "slicer" -> [k |-> "slc", sf |-> 0, x |-> E.ops[1], pos |-> E.pos, w |-> E.n]
     [] E.ev = "composer" -> [k |-> "comp", sf |-> 0, w |-> SumW(E.ops), parts |-> PartsOf(E.ops, 1, 0)]
 
-Known(t) == t.k \in {"cst", "reg", "ext", "slc", "comp", "tst", "op", "uop", "ptr", "mem", "top", "bot", "vec"}
+\* external symbols are outside the claim: amoco assumes they are non-null addresses ((ext == 0) is
+\* simplified to false), the property quantifies over registers and constants
+Known(t) == t.k \in {"cst", "reg", "slc", "comp", "tst", "op", "uop", "ptr", "mem", "top", "bot", "vec"}
 RECURSIVE AllKnown(_)
 AllKnown(t) ==
   /\ Known(t)
